@@ -2,6 +2,7 @@ package binary
 
 import (
 	"bytes"
+	"io"
 
 	"github.com/tetratelabs/wazero/internal/wasm"
 )
@@ -14,7 +15,8 @@ func decodeCustomSection(r *bytes.Reader, name string, limit uint64) (result *wa
 		return nil, err
 	}
 	buf := make([]byte, limit)
-	_, err = r.Read(buf)
+	// io.ReadFull, unlike a bare Read, succeeds for an empty payload at the very end of the input.
+	_, err = io.ReadFull(r, buf)
 
 	result = &wasm.CustomSection{
 		Name: name,
